@@ -8,7 +8,9 @@ from lib import SPEC, MachineryError, extract_prints, new_run_dir, rm_run_dir, r
 from modelreplay import dlismodel_drift, dlismodel_programs
 
 SEG_ACTIONS = ['Segmenter.WriteSUL', 'Segmenter.BeginRecord', 'Segmenter.SegmentStep', 'Segmenter.Emit', 'Segmenter.FinalFlush']
-M_SEG = {'name': 'Segmenter', 'module': 'MC_Segmenter.tla',
+# unbounded obligation (Apalache): the split arithmetic keeps its inductive invariant for every capacity >= 12 and every length
+A_SEG = {'name': 'SegArith', 'module': 'SegArith.tla', 'obligations': [('Init', 'IndInv', 0), ('IndInit', 'IndInv', 1)]}
+M_SEG = {'name': 'Segmenter', 'module': 'MC_Segmenter.tla', 'apalache': A_SEG,
          'cfg': {'quick': 'MC_Segmenter_quick.cfg', 'thorough': 'MC_Segmenter_thorough.cfg'},
          'must_cover': SEG_ACTIONS, 'timeout': {'quick': 900, 'thorough': 7200}}
 
